@@ -270,6 +270,29 @@ Section Evo.
     end.
 End Evo.
 
+(* ---------- the Ok side, declaratively (independent of the decoder model's match_field / init_var / finish_fields) ----------
+   per declared field: the LAST wire field with its id and its declared wire type, viewed at the declared type; else the
+   IDL default; else nothing *)
+Section Declarative.
+  Variable S : schema.
+
+  Fixpoint last_carried (f : field) (fs : list (Z * tval)) : option tval :=
+    match fs with
+    | [] => None
+    | q :: r =>
+        match last_carried f r with
+        | Some x => Some x
+        | None => if carries S f q then Some (snd q) else None
+        end
+    end.
+
+  Definition decl_field (fs : list (Z * tval)) (f : field) : list (Z * gval) :=
+    match last_carried f fs with
+    | Some x => match view S (f_ty f) x with Ok y => [(f_id f, y)] | _ => [] end
+    | None => match f_dflt f with Some (_, d) => [(f_id f, d)] | None => [] end
+    end.
+End Declarative.
+
 (* result of a decoder that must produce [o] and stop in state [s] *)
 Definition lift_view {A} (o : res A) (s : rst) : res (A * rst) :=
   match o with
